@@ -20,6 +20,7 @@ use std::process::{Command, Stdio};
 use std::sync::atomic::{AtomicBool, AtomicU64, AtomicUsize, Ordering};
 
 const BUDGET: usize = 100_000_000;   // backstop only: see `child` for why the effective budget is CPU time
+const MAX_BUDGET_WITNESSES: u64 = 12;
 const BUDGET_TICKS: u64 = 40;   // 0.4 s of CPU for ONE parse of an input of at most 5 characters
 const ALPHA: [&str; 3] = ["x", "y", " "];
 
@@ -515,16 +516,20 @@ fn emit_all(gs: &[Vec<GRule>], maxlen: usize, w: &mut impl Write) -> (u64, u64, 
         if v == "ok" { ok += 1; if !uses_stack(g) { accepted.push((sx, text)); } }
     }
     w.flush().unwrap();
-    let mut runs = 0u64; let mut bad = 0u64;
-    for chunk in accepted.chunks(200) {
+    let mut runs = 0u64; let mut bad = 0u64; let mut budgets = 0u64; let mut skipped = 0u64;
+    for chunk in accepted.chunks(50) {
+        // every exhausted CPU budget costs BUDGET_TICKS of CPU: once a run has produced enough of them (it fails anyway)
+        // the remaining grammars are not executed any more, so that a broken tree cannot make the check run for minutes
+        if budgets >= MAX_BUDGET_WITNESSES { skipped += chunk.len() as u64; continue; }
         let texts: Vec<String> = chunk.iter().map(|(_, t)| t.clone()).collect();
         let res = termination(&texts, maxlen);
         for ((sx, _), o) in chunk.iter().zip(res.iter()) {
             writeln!(w, "T|{}|{}|{}\t{}", x, maxlen, sx, o).unwrap();
-            if let Some(k) = o.strip_prefix("term ") { runs += k.parse::<u64>().unwrap_or(0); } else { bad += 1; }
+            if let Some(k) = o.strip_prefix("term ") { runs += k.parse::<u64>().unwrap_or(0); } else { bad += 1; if o.starts_with("budget") { budgets += 1; } }
         }
         w.flush().unwrap();
     }
+    if skipped > 0 { writeln!(w, "#NOTE\ttermination_runs_skipped={}", skipped).unwrap(); }
     (n, ok, nontriv, runs, bad)
 }
 
